@@ -10,7 +10,7 @@
    NOT proved: that every interleaving of deliveries and timer steps reaches the converged state (needs fairness and
    the timer gating); explored by the check on 2-3 real nodes under seeded schedulers. *)
 From Coq Require Import NArith List Sorted.
-From SkV Require Import Sync SyncProofs SyncRoundProofs NodeModel NodeProofs.
+From SkV Require Import Sync SyncProofs SyncRoundProofs CatchUpProofs NodeModel NodeProofs.
 Import ListNotations.
 Open Scope N_scope.
 
@@ -72,6 +72,25 @@ Theorem C10_ibd_terminates : forall batch main height_of, main <> [] ->
   forall rc, rc <> [] -> prefix_of main rc -> exists n, rounds batch main height_of n rc = main.
 Proof. intros batch main height_of H1 H2 H3. exact (ibd_terminates batch main height_of H1 H2 H3). Qed.
 
+(* a FORKED requester that is strictly behind (its chain shares the prefix `common` with the server's active chain, its own
+   branch `side` is unknown to the server or known below the server's head): the first reply starts at or below the
+   block after the fork point, every follow-up request continues where the last reply ended, and the ids the requester is
+   told about cover every block of the server's active chain above the fork point -- nothing off that chain, in height
+   order without gaps.  (Two nodes, no loss; equal-height forks are not required to switch and are not covered.) *)
+Theorem C10_forked_requester_catches_up : forall batch main height_of common rest rc side,
+  0 < batch -> main = common ++ rest -> rc = common ++ side -> common <> [] ->
+  (forall i h, nth_error main (N.to_nat h) = Some i -> height_of i = Some h) ->
+  (forall x, In x side -> ~ In x main /\ (height_of x = None \/ exists hx, height_of x = Some hx /\ hx < head_height main)) ->
+  (length rc < length main)%nat ->
+  (exists fuel, forall i, In i rest -> In i (catch_up batch main height_of fuel rc)) /\
+  (forall fuel i, In i (catch_up batch main height_of fuel rc) -> In i main).
+Proof.
+  intros batch main height_of common rest rc side Hb Hm Hr Hc Hcons Hside Hbeh. split.
+  - eapply catch_up_covers; eassumption.
+  - intros fuel i. eapply catch_up_only_main; eassumption.
+Qed.
+
+Print Assumptions C10_forked_requester_catches_up.
 Print Assumptions C10_ibd_rounds_converge.
 Print Assumptions C10_ibd_terminates.
 Print Assumptions C10_locator_exact.
